@@ -207,7 +207,7 @@ def merge_task(task):
     for tail in sched.merges([len(ops) - (1 if i == first else 0) for i in range(n)]):
         if task.get("upto") is not None and count > task["upto"]:
             break
-        order = (first,) + tail
+        order = ((first,) if first is not None else ()) + tail
         env = {}
         actors = [Actor(sp, env=env) for sp in specs]
         bad = None
@@ -304,11 +304,21 @@ def baton_task(task):
         if ctx["bad"] and len(viol) < 5:
             step, j, why = ctx["bad"]
             viol.append(dict(driver="baton", specs=specs, ops=ops, schedule=list(schedule[:step]), bound=bound,
-                             root=list(task.get("root", ())), upto=stats["n"],
+                             roots=[list(r) for r in (task.get("roots") or [task.get("root", ())])][:stats.get("root_index", 0) + 1],
+                             upto=stats["n"],
                              message=f"schedule {list(schedule[:step])} (switch points: operation boundaries and objective "
                                      f"entry; ops {ops}): solver {j} ({specs[j]['f']}) differs from its solo run: {why}", sig={}))
-    count, complete = sched.explore_schedules(make, on_exec, bound=bound, limit=task.get("limit"),
-                                              root=task.get("root", ()))
+    count, complete = 0, True
+    roots = task.get("roots") or [task.get("root", ())]
+    for ri, root in enumerate(roots):
+        stats["root_index"] = ri
+        stats["n"] = 0
+        lim = task.get("limit") if ri == len(roots) - 1 else None
+        c, comp = sched.explore_schedules(make, on_exec, bound=bound, limit=lim, root=root)
+        count += c
+        complete = complete and comp
+        if viol:
+            break
     return count, complete, stats["alternating"], len(stats["outcomes"]), viol
 
 
@@ -317,8 +327,8 @@ def replay_baton(rec):
     refs = refs_for(rec)
     if rec.get("upto") is not None:
         # complete in-process history: every schedule the exploring process executed before this one, in order
-        out = baton_task(dict(specs=specs, ops=ops, bound=rec.get("bound"), root=rec.get("root", ()), refs=refs,
-                              limit=rec["upto"]))
+        out = baton_task(dict(specs=specs, ops=ops, bound=rec.get("bound"), roots=rec.get("roots") or [rec.get("root", ())],
+                              refs=refs, limit=rec["upto"]))
         return [v["message"] for v in out[4]][:1]
     actors = []
     resting = [True] * len(specs)
@@ -375,11 +385,9 @@ def run(ctx):
         for fs in pairs if th else pairs[:2] + ctx.pick(pairs[2:], 1):
             sp = specs_for(N, fs)
             ops = ["c", "i", "i", "S", "r"] if not th else ["c", "i", "I", "S", "i", "r"]
-            for first in range(2):
-                tasks.append(dict(specs=sp, ops=ops, first=first))
+            tasks.append(dict(specs=sp, ops=ops, first=None))
         sp3 = specs_for(N, ("quad0", "mono", "const"))
-        for first in range(3):
-            tasks.append(dict(specs=sp3, ops=["c", "i", "S"] if not th else ["c", "i", "S", "r"], first=first))
+        tasks.append(dict(specs=sp3, ops=["c", "i", "S"] if not th else ["c", "i", "S", "r"], first=None))
     # what the solvers of one execution may legitimately have in common: one SolverParameters object, the default
     # parameters argument, one Problem object; dimensions 5/6 next to 2 so that a per-dimension adjustment of a
     # shared object would show
@@ -390,7 +398,7 @@ def run(ctx):
                            density=density))
         if share == "problem":
             sp = [dict(sp[0]) for _ in dims]
-        return [dict(specs=sp, ops=ops, first=first) for first in range(len(dims))]
+        return [dict(specs=sp, ops=ops, first=None)]
     for dims in ((2, 1), (5, 2), (2, 5)) + (((1, 3), (3, 3)) if th else ()):
         for dens in (None, 12):
             tasks += shared("params", dims, ("quad0", "mono"), ["c", "i", "i", "S", "r"], density=dens)
@@ -403,7 +411,7 @@ def run(ctx):
         for d0, d1 in ((4, 10), (10, 4)):
             sp = [dict(f="mono", N=N, box="B1", r=2.0, eps=0.05, limit=8, density=d0),
                   dict(f="mono", N=N, box="B1", r=2.0, eps=0.05, limit=8, density=d1)]
-            tasks += [dict(specs=sp, ops=["c", "i", "i", "S", "r"], first=first) for first in range(2)]
+            tasks += [dict(specs=sp, ops=["c", "i", "i", "S", "r"], first=None)]
     merges = alt = 0
     outcomes = 0
     table = fresh_solos([(sp, t["ops"]) for t in tasks for sp in t["specs"]])
@@ -430,7 +438,8 @@ def run(ctx):
     n_solo += len(table)
     for t in btasks0:
         t["refs"] = [table[_key(sp, t["ops"])] for sp in t["specs"]]
-    btasks = [dict(t, root=list(root)) for t in btasks0 for root in itertools.product((0, 1), repeat=3)]
+    allroots = [list(root) for root in itertools.product((0, 1), repeat=3)]
+    btasks = [dict(t, roots=allroots[i:i + 2]) for t in btasks0 for i in range(0, 8, 2)]
     scheds = 0
     balt = 0
     complete = True
